@@ -84,6 +84,7 @@ package flowcontrol
 //@   modifies c.receiveWindow, c.receiveWindowSize, c.epochStartTime, c.epochStartOffset
 
 //@ devirt flowcontrol.connectionFlowControllerI *connectionFlowController
+//@ devirt flowcontrol.StreamFlowController *streamFlowController
 
 //@ pred (c *connectionFlowController) cInv() = c.baseFlowController.fcInv() && c.rttStats != nil
 
